@@ -87,6 +87,10 @@ type Scenario struct {
 	StartFail map[int]bool
 	// StartGate: Start parks at a schedule point before it returns (slow start-up).
 	StartGate bool
+	// SourceIgnoresCtx: the upstream keeps running its program when the trigger context
+	// ends and registers no context callback (a source with its own life cycle, e.g. a
+	// message-bus consumer); its Done is the D step of the program only.
+	SourceIgnoresCtx bool
 	// Hook: the data source implements HookableSubscriptionDataSource.
 	Hook     bool
 	HookEmit bool            // the hook sends one initial event to its subscriber through StartupHookContext.Updater
@@ -211,6 +215,11 @@ func Scenarios(prop string, thorough bool) []Scenario {
 		{Name: "S19-async-cancel", Actors: []Actor{one("A", async("A", "a", "h1", 1, "cancel")), one("B", async("B", "a", "h1", 2, "none"))},
 			Progs: map[string][][]Step{k: {{U(1), U(2), D}, {U(1), D}}}},
 		// re-subscribe by another client while the first one leaves, second stays and is closed by the source
+		// the CREATOR of a shared trigger leaves by cancellation of its own request context while another subscriber stays and events follow
+		{Name: "S24-creator-request-context-cancelled", Actors: []Actor{one("A", with(async("A", "a", "h1", 1, "cancel"), func(s *Session) { s.After = 1 })), one("B", with(async("B", "a", "h1", 2, "none"), func(s *Session) { s.Shape = 1 }))},
+			Progs: map[string][][]Step{k: {{U(1), U(2), U(3), D}, {U(1), D}}}, SourceIgnoresCtx: true},
+		{Name: "S25-sync-creator-disconnects", Actors: []Actor{one("A", with(syncS("A", "a", "h1", "cancel"), func(s *Session) { s.After = 1 })), one("B", async("B", "a", "h1", 2, "none"))},
+			Progs: map[string][][]Step{k: {{U(1), U(2), U(3), D}, {U(1), D}}}, SourceIgnoresCtx: true},
 		{Name: "S20-leave-and-join", Actors: []Actor{one("A", async("A", "a", "h1", 1, "unsub")), one("B", async("B", "a", "h1", 2, "none"))},
 			Progs: map[string][][]Step{k: {{U(1), U(2)}, {U(1), U(2)}}}},
 
